@@ -189,3 +189,25 @@ Print Assumptions C02_empty_sum_regenerates_everything.
 
 Example C02_example_real_parser_load_of_nothing : SumFile.sumfile_load [] = [].
 Proof. vm_compute. reflexivity. Qed.
+
+(* ---- a real failing generator (Model/Generators.v: partialstruct as an instance of the abstract generator, built from
+   C18's model): a declaration that is not a struct, or not made from a named type, in a processed package —
+   [generate_pkg ... = OutErr k], the error C18_errors proves is returned before anything is rendered — makes the
+   whole run fail, whatever other packages and generators are in it; gengo.sum is left as it was; and when Execute
+   names partialstruct and this package, no file of the package's directory has changed ---- *)
+Require Gengo.Model.Generators Gengo.Proofs.GeneratorsPipe.
+Module GN := Gengo.Model.Generators.
+Module GP := Gengo.Proofs.GeneratorsPipe.
+
+Theorem C02_partialstruct_error_aborts :
+  forall (E : env) cfg tracker tin print_gtype a w gens s p k,
+    order_ok E -> NoDup (map g_name gens) -> world_ok w ->
+    In p (w_pkgs w) -> processed E a w s p = true -> In (GN.partialstruct_gen cfg tracker tin print_gtype) gens ->
+    GN.PS.generate_pkg (tracker p) (pk_path p) cfg (map (tin p) (GP.ps_called cfg tracker tin print_gtype E p)) [] []
+      = GN.PS.OutErr k ->
+    exec_outcome E a w gens s <> Done /\
+    (files_ok w -> fs_lookup (sum_path w) (exec_fs E a w gens s) = fs_lookup (sum_path w) s) /\
+    (exec_outcome E a w gens s = Failed (EGen (bs "partialstruct") (pk_path p)) ->
+     forall f, fs_lookup (pk_dir p, f) (exec_fs E a w gens s) = fs_lookup (pk_dir p, f) s).
+Proof. exact GP.partialstruct_error_aborts. Qed.
+Print Assumptions C02_partialstruct_error_aborts.
